@@ -172,6 +172,11 @@ def install(interp):
     interp.nn_ns = nn_ns
     interp.F_ns = f_ns
 
+    # inferno.exp / inferno.sqrt are functools.singledispatch wrappers over math/torch/numpy exp and sqrt:
+    # modelled (trusted) as the real exponential / square root
+    interp.trusted[("inferno/core/math.py", "exp")] = lambda it, x: t_exp(x) if isinstance(x, (T, SV)) else t_exp(SV(num(x)))
+    interp.trusted[("inferno/core/math.py", "sqrt")] = lambda it, x: t_sqrt(x) if isinstance(x, (T, SV)) else t_sqrt(SV(num(x)))
+
     # ---- einops (time-axis moves only)
     def rearrange(x, pattern, **axes):
         pat = " ".join(pattern.split())
